@@ -52,6 +52,13 @@ def make_graph(shape, n, rnd, outcome):
     elif shape == 'split':
         # a script that asks for its dependencies one by one: tokens are taken and returned repeatedly
         files['top.do'] = scen.node_do(leaves, sl(), split=True)
+    elif shape == 'sharedfail':
+        # several groups need one slow target that fails: all but one of them meet it locked, wait, and find it failed
+        files['sfail.do'] = scen.TRACE_HDR + 'echo "S $1 $$ $PPID" >&9\necho "W+ $1 $$" >&9\nsleep 0.3\necho "W- $1 $$" >&9\necho "E $1 $$ 4" >&9\nexit 4\n'
+        k = 3
+        for gi in range(k):
+            files['g%d.do' % gi] = scen.node_do(['sfail'] + leaves[gi::k][:2], sl())
+        files['top.do'] = scen.node_do(['g%d' % gi for gi in range(k)], sl())
     elif shape.startswith('cheat'):
         # the followed (first) job waits for a target that a sibling is building, gives its slot away while it
         # waits, and finds every slot taken when it may continue: the one situation in which redo borrows a slot
@@ -80,8 +87,7 @@ def make_graph(shape, n, rnd, outcome):
         if outcome == 'err-cycle':
             files['mid.do'] = scen.TRACE_HDR + 'echo "S $1 $$ $PPID" >&9\nredo-ifchange slow errtop\necho "E $1 $$ 0" >&9\n'
         elif outcome == 'err-tmpdir':
-            files['blocked.redo.tmp/keep'] = 'x'
-            files['blocked.do'] = scen.leaf_do()
+            files['blocked.do/keep'] = 'x'       # the rule is a directory: redo cannot read it (a hard error, not a failing script)
             files['mid.do'] = scen.TRACE_HDR + 'echo "S $1 $$ $PPID" >&9\nredo-ifchange slow blocked\necho "E $1 $$ 0" >&9\n'
         elif outcome == 'err-empty':
             files['mid.do'] = scen.TRACE_HDR + 'echo "S $1 $$ $PPID" >&9\nredo-ifchange slow ""\necho "E $1 $$ 0" >&9\n'
@@ -257,11 +263,11 @@ def gate_layer(col, configs, depth, deadline):
         level += 1
 
 
-RULE = ('builds of fan / nested fan / diamond / chain / one-by-one graphs of 6-60 leaves with jittered work sections, (i) under a jobserver '
+RULE = ('builds of fan / nested fan / diamond / chain / one-by-one / shared-failing (three groups wait for one slow target that fails) graphs of 6-60 leaves with jittered work sections, (i) under a jobserver '
         'owned by the harness (MAKEFLAGS pipe with N-1 bytes, harness-owned cheat pipe) via redo-ifchange and redo, (ii) as redo -jN; N in '
         '1..8(16); with log capture (follower attached, cheating possible) and with REDO_LOG=0; outcomes: success, failing leaves, failing '
-        'leaves with --keep-going, and error exits of a nested redo-ifchange that still has a job running (dependency cycle, unusable temp '
-        'path, empty target name). Oracles: (a) bytes in the token pipe after the command = bytes before, cheat pipe empty; (b) no '
+        'leaves with --keep-going, and error exits of a nested redo-ifchange that still has a job running (dependency cycle, a rule that is a directory, '
+        'empty target name). Oracles: (a) bytes in the token pipe after the command = bytes before, cheat pipe empty; (b) no '
         '"on exit: expected N tokens" from a self-owned jobserver; (c) maximum nesting of W+/W- work sections in the trace <= N (+1 with a '
         'follower), demanded for success and build failure; (d) per-process ledger over hook records: every redo process leaves the jobserver '
         'holding exactly one real token or one written-back borrowed one, and the running sum of the pipe never goes negative. A third layer '
@@ -294,6 +300,12 @@ def items_for(tier, rnd):
                         if outcome == 'ok':
                             items.append((mode, 'cheatf%d' % nsh, 4, nsh + extra, True, outcome, cmd, rnd.randrange(10 ** 6)))
                             items.append((mode, 'cheatn%d' % nsh, 4, nsh + extra, True, outcome, cmd, rnd.randrange(10 ** 6)))
+    for rep in range(1 if quick else 6):
+        for slots in (2, 3, 4):
+            for log in (False, True):
+                for outcome in ('fail', 'failk'):
+                    for mode, cmd in (('inh', 'redo-ifchange'), ('own', 'redo')):
+                        items.append((mode, 'sharedfail', 6, slots, log, outcome, cmd, rnd.randrange(10 ** 6)))
     for rep in range(1 if quick else 8):
         for outcome in ('err-cycle', 'err-tmpdir', 'err-empty'):
             for slots in (2, 3, 4):
